@@ -4,6 +4,8 @@ import (
 	"encoding/json"
 	"flag"
 	"fmt"
+	"io"
+	"log"
 	"os"
 )
 
@@ -19,6 +21,8 @@ var suitesByProp = map[string][]func(*runner, *rng){
 	"C16": {suiteDur, suiteFracFloat},
 	"C15": {suiteLin},
 	"C01": {suiteSrt},
+	"C17": {suiteSchedules},
+	"C18": {suiteFaults},
 }
 
 func readRepoFile(rel string) ([]byte, error) { return os.ReadFile(repoDir + "/" + rel) }
@@ -35,6 +39,7 @@ func main() {
 	flag.StringVar(&repoDir, "repo", "/repo", "repository under test")
 	flag.StringVar(&buildDir, "build", ".build", "scratch build directory")
 	flag.Parse()
+	log.SetOutput(io.Discard) // the library logs through the standard logger
 	suites, ok := suitesByProp[*prop]
 	if !ok {
 		fatal("no suites for property %q", *prop)
